@@ -261,10 +261,10 @@ Definition seq_keq (a b : pyrecord) : bool := word_eqb (pr_seq a) (pr_seq b).
 
 (* d[k] and d.pop(k): KeyError carries the key *)
 Definition dict_getitem {V} (keq : pyrecord -> pyrecord -> bool) (d : list (pyrecord * V)) (k : pyrecord) : exc V :=
-  match dict_get keq d k with Some v => Ok v | None => Err (XKeyError (pr_seq k)) end.
+  match dict_get keq d k with Some v => Ok v | None => Err (XKeyError (KeySeq (pr_seq k))) end.
 Definition dict_pop {V} (keq : pyrecord -> pyrecord -> bool) (d : list (pyrecord * V)) (k : pyrecord)
   : exc (V * list (pyrecord * V)) :=
-  match dict_get keq d k with Some v => Ok (v, dict_remove keq d k) | None => Err (XKeyError (pr_seq k)) end.
+  match dict_get keq d k with Some v => Ok (v, dict_remove keq d k) | None => Err (XKeyError (KeySeq (pr_seq k))) end.
 
 (* SeqRecord(seq) with default id, no features, empty annotations *)
 Definition mk_SeqRecord1 (seq : pyrecord) : pyrecord := PR KSeqRecord (pr_seq seq) 0 [] None [].
@@ -323,3 +323,14 @@ Definition bio_reverse_complement (r : pyrecord) (id name description features a
   let rc_ := rc_record (to_record r) in
   PR KSeqRecord (rseq rc_) (pr_id r) (if features then rfeats rc_ else [])
      (if annotations then pr_annotations r else None) (if letter_annotations then rtracks rc_ else []).
+
+(* ---------- registries (registry/base.py) ------------------------------------------------ *)
+
+(* an Item: its id and the rest (entity, name, resistance), interned *)
+Record regitem := RI { item_id : string; item_body : nat }.
+
+(* d[k] on a dictionary keyed by strings *)
+Definition dict_getitem_str {V} (d : list (string * V)) (k : string) : exc V :=
+  match dict_get String.eqb d k with Some v => Ok v | None => Err (XKeyError (KeyStr k)) end.
+Definition dict_mem_str {V} (d : list (string * V)) (k : string) : bool :=
+  negb (is_none (dict_get String.eqb d k)).
